@@ -650,12 +650,16 @@ class World:
         with self.seg(self.origin, "ApiSendData", cid=circuit.circuit_id, dst=self.id_of_addr(circuit.hop.address)):
             self.origin.send_data(circuit.hop.address, circuit.circuit_id, dest, NULL, data)
 
-    def api_outside(self, node, cid, data, source=("9.9.9.9", 99)):
+    def api_outside(self, node, cid, data, source=("9.9.9.9", 99), v6=False):
+        """a datagram from the outside world arrives at one of the exit socket's (fake) transports"""
         sock = node.exit_sockets.get(cid)
         if sock is None:
             return False
         with self.seg(node, "ApiOutside", cid=cid, len=len(data), allowed=bool(sock.is_allowed(data))):
-            sock.datagram_received_ipv4(data, source)
+            if v6:
+                sock.datagram_received_ipv6(data, ("2001:db8::9", source[1], 0, 0))
+            else:
+                sock.datagram_received_ipv4(data, source)
         return True
 
     def tables(self):
